@@ -230,7 +230,7 @@ GenBadSymbol == "badsymbol" \in FaultKinds /\ \E t \in BadTokens : nterms < MaxT
 GenStray == "stray" \in FaultKinds /\ \E b \in Brackets : StrayCloser(b)
 GenMismatch == "mismatch" \in FaultKinds /\ \E b \in AllBrackets : MismatchedCloser(b)
 GenUnclosed == "unclosed" \in FaultKinds /\ Unclosed
-GenContradictory == "contradictory" \in FaultKinds /\ \E t \in {"+-", "-+", "+2-", "-3+"} : Contradictory(t)
+GenContradictory == "contradictory" \in FaultKinds /\ \E t \in {"+-", "-+", "+2-", "-3+", "+-2", "-+3"} : Contradictory(t)
 
 Next ==
     \/ GenPrefix \/ GenAtom \/ GenOpen \/ GenClose \/ GenPrime \/ GenHydrate \/ GenCharge
